@@ -431,7 +431,10 @@ func (seq Sequence) Truncate(width int, resolution time.Duration, asOf time.Time
 			if bytesToRemove+Width64bits >= len(seq) {
 				return nil
 			}
-			result = result[bytesToRemove:]
+			// allocate rather than re-slice, since writing the new until into a
+			// re-sliced result would overwrite the caller's sequence
+			result = make(Sequence, len(seq)-bytesToRemove)
+			copy(result[Width64bits:], seq[Width64bits+bytesToRemove:])
 			result.SetUntil(until)
 		}
 	}
